@@ -32,9 +32,8 @@ pub fn constants(
             location.clone(),
             rpl.backward()?
                 .into_iter()
-                .fold(Constants::new(), |c, location| {
-                    c.join(&constants[&location.into()])
-                }),
+                .filter_map(|location| constants.get(&location.into()))
+                .fold(Constants::new(), |c, constants| c.join(constants)),
         );
     }
 
